@@ -273,17 +273,21 @@ func c41aConfigs(thorough bool) [][]c41aBuilder {
 	return out
 }
 
-func c41aRequests() []c41aReq {
+func c41aRequests(thorough bool) []c41aReq {
 	vals := []string{"a", "c", "a,b=c", "=", ""}
 	var lists [][]string
 	lists = append(lists, nil) // absent
 	for _, v := range vals {
 		lists = append(lists, []string{v})
 	}
-	for _, v := range vals {
-		for _, w := range vals {
-			lists = append(lists, []string{v, w})
+	if thorough {
+		for _, v := range vals {
+			for _, w := range vals {
+				lists = append(lists, []string{v, w})
+			}
 		}
+	} else {
+		lists = append(lists, []string{"a", "c"}, []string{"c", "a"}, []string{"a,b=c", "="}, []string{"", "a"}, []string{"", ""})
 	}
 	var out []c41aReq
 	for _, path := range []string{"/s/m", "/s/x", "/t/m"} {
@@ -365,7 +369,7 @@ func TestVerif_C41_RLSKeys(t *testing.T) {
 	const P = c41aP
 	r := vk.Start(t, "c41a_rlskeys", "exploration", P)
 	defer r.Finish()
-	r.Rule(P, "configs: 1 key builder from the full menu {0,1,2 header matchers (keys a,b) x name lists over [h1],[h2],[h1,h2],[h2,h1]} x {extra host/service/method keys on/off} x {constant key on/off} serving /s/m, /s/ (whole service) or {/s/m,/t/}; 2 key builders (exact path + whole-service fallback, or two services) over a reduced (quick) / the full (thorough) menu. Requests: headers h1,h2 each absent or 1-2 values over {a, c, 'a,b=c', '=', ''}, 2 hosts, paths {/s/m,/s/x,/t/m}. Every (config, request) goes through the real MakeBuilderMap + RLSKey; oracle (F) recomputes the key map from the sentence, oracle (I) groups all reachable key maps of one (config, path) by KeyMap.Str. Non-trivial = distinct (config, path, key map) triples with at least one header-derived key")
+	r.Rule(P, "configs: 1 key builder from the full menu {0,1,2 header matchers (keys a,b) x name lists over [h1],[h2],[h1,h2],[h2,h1]} x {extra host/service/method keys on/off} x {constant key on/off} serving /s/m, /s/ (whole service) or {/s/m,/t/}; 2 key builders (exact path + whole-service fallback, or two services) over a reduced (quick) / the full (thorough) menu. Requests: headers h1,h2 each absent, 1 value, or 2 values (quick: 5 chosen pairs; thorough: all 25) over {a, c, 'a,b=c', '=', ''}, 2 hosts, paths {/s/m,/s/x,/t/m}. Every (config, request) goes through the real MakeBuilderMap + RLSKey; oracle (F) recomputes the key map from the sentence, oracle (I) groups all reachable key maps of one (config, path) by KeyMap.Str. Non-trivial = distinct (config, path, key map) triples with at least one header-derived key")
 	r.Assume(P, "a header is 'present' when the request metadata has an entry for it (one empty value counts as present); requests served by no key builder get an empty key map; the cache key is (path, KeyMap.Str) as in balancer/rls/cache.go, so injectivity is judged per configuration and path")
 
 	if f := r.ReplayFile(); f != "" {
@@ -396,7 +400,7 @@ func TestVerif_C41_RLSKeys(t *testing.T) {
 	}
 
 	configs := c41aConfigs(r.Thorough())
-	reqs := c41aRequests()
+	reqs := c41aRequests(r.Thorough())
 	mds := make([]metadata.MD, len(reqs))
 	for i := range reqs {
 		mds[i] = c41aMD(reqs[i])
